@@ -16,6 +16,7 @@ package main
 //	       | "p" N                      panic("panic-<N>")
 //	src   := "c" [int ("." int)*]       these values
 //	       | "i" int                    the input column plus int
+//	       | "n" count "x" int          count rows of that value
 //	meta  := "" | khex "=" vhex ("," khex "=" vhex)*
 
 import (
@@ -66,6 +67,22 @@ type scriptCall struct {
 	Outcome  string // ok | err | panic
 	Emitted  int    // successful Emit calls
 	Finished bool
+	Logs     int   // ClientLog calls
+	BufSize  int64 // in-memory Arrow buffer size of the emitted data batch
+	Rows     int   // rows of the emitted data batch
+}
+
+// arrowBufferSize is the in-memory size of a batch: the sum of its columns' buffer lengths.
+func arrowBufferSize(b arrow.RecordBatch) int64 {
+	var total int64
+	for i := 0; i < int(b.NumCols()); i++ {
+		for _, buf := range b.Column(i).Data().Buffers() {
+			if buf != nil {
+				total += int64(buf.Len())
+			}
+		}
+	}
+	return total
 }
 
 type scriptRecorder struct {
@@ -194,6 +211,20 @@ func parseScriptAct(a string) (scriptAct, error) {
 				return scriptAct{}, fmt.Errorf("bad act %q", a)
 			}
 			act.Input, act.Add = true, n
+		case 'n':
+			nv := strings.SplitN(src[1:], "x", 2)
+			if len(nv) != 2 {
+				return scriptAct{}, fmt.Errorf("bad act %q", a)
+			}
+			cnt, err1 := strconv.Atoi(nv[0])
+			v, err2 := strconv.ParseInt(nv[1], 10, 64)
+			if err1 != nil || err2 != nil || cnt < 0 || cnt > 1<<20 {
+				return scriptAct{}, fmt.Errorf("bad act %q", a)
+			}
+			act.Vals = make([]int64, cnt)
+			for i := range act.Vals {
+				act.Vals[i] = v
+			}
 		default:
 			return scriptAct{}, fmt.Errorf("bad act %q", a)
 		}
@@ -260,6 +291,7 @@ func runScriptTick(acts []scriptAct, input []int64, out *vgirpc.OutputCollector,
 		switch a.Op {
 		case 'l':
 			out.ClientLog(vgirpc.LogInfo, fmt.Sprintf("m%d", a.N))
+			call.Logs++
 		case 'e':
 			vals := a.Vals
 			if a.Input {
@@ -276,6 +308,7 @@ func runScriptTick(acts []scriptAct, input []int64, out *vgirpc.OutputCollector,
 				}
 			}
 			batch := int64Batch(scriptValueSchema, vals)
+			size, rows := arrowBufferSize(batch), len(vals)
 			if err := out.EmitWithMetadata(batch, meta); err != nil {
 				batch.Release()
 				if a.Prop {
@@ -283,6 +316,7 @@ func runScriptTick(acts []scriptAct, input []int64, out *vgirpc.OutputCollector,
 				}
 			} else {
 				call.Emitted++
+				call.BufSize, call.Rows = size, rows
 			}
 		case 'f':
 			if err := out.Finish(); err != nil {
